@@ -568,8 +568,15 @@ def check_c13(run: Run, prog: Program) -> None:
     run.clause = (
         "decides ONE clause of the last sentence ('area and volume return ... the textbook measures'): Circle.area, Sphere.volume and Sphere.area, "
         "normalised as monomials in pi, the radius and the dimension (helpers such as _alpha inlined), equal pi r^2, the volume and the surface of "
-        "the n-ball. NOT decided: everything about the constructors (from_points, from_tangent, from_foci, from_crossratio, the loci of "
+        "the n-ball; and every number a quadric class returns (radius, area, volume, angles ...) has homogeneity degree 0 in the matrix and in "
+        "every argument (E5) - necessary for 'return the parameters'. NOT decided: everything about the constructors (from_points, from_tangent, from_foci, from_crossratio, the loci of "
         "Circle/Ellipse/Sphere/Cone/Cylinder), center, radius and foci - those are numeric identities between a constructor's matrix and an accessor."
     )
     n = polyform.rule_measures(run, prog)
     run.floor("measure formulas", n, 2)
+    # the accessors and measures of a quadric are functions of the quadric, not of the scale of its matrix (degree 0, E5)
+    from geolint import homog
+
+    quadric = prog.cls("QuadricTensor")
+    n2 = homog.add_returns(run, prog, lambda f: f.cls is not None and prog.is_subclass(f.cls, quadric))
+    run.stats["accessor_return_paths"] = n2
